@@ -243,7 +243,7 @@ def _near_boundary(rng, size, unit, align=1):
     return a - a % align
 
 
-def gen_requests(rng, size, unit, n=6, sector=None, raw_align=1, max_bytes=4_000_000):
+def gen_requests(rng, size, unit, n=6, sector=None, raw_align=1, max_bytes=4_000_000, big=0):
     """Requests against a disk of `size` bytes with allocation unit `unit` bytes.
     sector: sector size when the reader has a read_sectors interface; raw_align: alignment of back-end offsets.
     Half of the requests start shortly before a unit boundary so that crossings are common even for huge units."""
@@ -277,4 +277,12 @@ def gen_requests(rng, size, unit, n=6, sector=None, raw_align=1, max_bytes=4_000
             if size - a > max_bytes and (ln < 0 or ln > max_bytes):
                 ln = max_bytes
             reqs.append(["bytes", a, ln])
+    if big and size > max_bytes and rng.chance(0.5):
+        # one large single read: long zero / data runs are only exercised by requests above the usual cap
+        a = _near_boundary(rng, size, unit, raw_align) if rng.chance(0.5) else rng.randrange(0, size)
+        a -= a % raw_align
+        ln = min(size - a, rng.randint(min(big, unit // 2), big))
+        ln -= ln % raw_align
+        if ln > 0:
+            reqs[rng.randrange(len(reqs))] = [rng.pick(["raw", "bytes"]), a, ln]
     return reqs
